@@ -495,10 +495,13 @@ func init() {
 				e2run("counter-2c-joined-lostresponse-d5", e2p{Clients: 2, Type: "counter", Prefix: "joined", SyncFaults: []string{"drop", "dup"}, MaxFault: 2, Alpha: "one", Oracles: o}, 5, 0),
 				e2run("counter-3c-long-d4", e2p{Clients: 3, Type: "counter", Prefix: "long", Resend: true, Alpha: "one", Oracles: o}, 4, 0),
 				e2run("list-2c-long-readers-d3", e2p{Clients: 2, Type: "list", Prefix: "long", Readers: 2, Oracles: o}, 3, 0),
+				schedRun("requests-one-at-a-time-background-work-any-time-b2", 2, c06Background("counter"), 0),
 			}
 		} else {
 			p.BudgetS = 3300
 			p.Runs = []Run{
+				schedRun("requests-one-at-a-time-background-work-any-time-b3", 3, c06Background("counter"), 0),
+				schedRun("requests-one-at-a-time-background-work-any-time-list-b2", 2, c06Background("list"), 0),
 				e2run("counter-2c-joined-d7", e2p{Clients: 2, Type: "counter", Prefix: "joined", Resend: true, Oracles: o}, 7, 300000),
 				e2run("counter-3c-joined-d6", e2p{Clients: 3, Type: "counter", Prefix: "joined", Resend: true, Oracles: o}, 6, 300000),
 				e2run("list-2c-joined-d6", e2p{Clients: 2, Type: "list", Prefix: "joined", Resend: true, Oracles: o}, 6, 300000),
@@ -816,6 +819,16 @@ func init() {
 		}
 		return p
 	}
+}
+
+// c06Background: one caller makes the requests of two clients strictly one after the other; what the server starts
+// after each answer (notification, snapshot update) runs whenever the schedule lets it, also during later requests.
+// The log invariants are evaluated at every decision point at which no request is being served.
+func c06Background(typ string) e2sched {
+	return e2sched{E2: e2p{Clients: 2, Type: typ, Prefix: "joined", Tolerant: true},
+		Conc: []pact{{Op: "seq", R: 0, Sub: []pact{
+			localOp(typ, 0), {Op: "sync", R: 0}, localOp(typ, 1), {Op: "sync", R: 1}, localOp(typ, 0), {Op: "sync", R: 0}, {Op: "sync", R: 1}}}},
+		AtPoint: []string{"log"}, AtEnd: []string{"log", "converge", "applied", "issued", "reference"}}
 }
 
 func localOp(typ string, r int) pact {
